@@ -456,6 +456,10 @@ class Inliner:
             return None
         if sum(1 for _ in ast.walk(fn)) > 1500:
             return None
+        # a helper that calls itself cannot be unfolded into its caller
+        for c in ast.walk(fn):
+            if isinstance(c, ast.Call) and ((isinstance(c.func, ast.Name) and c.func.id == fn.name) or (isinstance(c.func, ast.Attribute) and c.func.attr == fn.name and isinstance(c.func.value, ast.Name) and c.func.value.id in ("self", "cls"))):
+                return None
         return e
 
     def resolve(self, call, modname, cls, enclosing_chain):
